@@ -33,6 +33,11 @@ def run_driver(run, drv, requests, tag):
 
 
 def validate_trace(run, module, cfg, events):
+    # a server that cannot be generated or built is a C01 matter; for the properties of this family it
+    # means that nothing was explored: infrastructure failure (exit 2), never a violation
+    bad = [e for e in events if e["ev"] == "Server" and not e["ok"]]
+    if bad:
+        raise Infra("generated server missing (generation or build failed): " + bad[0]["err"][-1500:])
     tpath = run.path("trace.ndjson"); write_ndjson(tpath, events)
     r = run.tlc(module, cfg, workers=1, timeout=3000, files={"trace.ndjson": tpath}, allow_fail=True)
     if r["depth"] != len(events) + 1 or not r["ok"]:
